@@ -80,11 +80,11 @@ Deviations ==
   {[clause |-> "C07.client_unreachable", locus |-> [shadowed_by |-> k]] : k \in {k \in AllClasses(Ops) : ModOfKey(k) \notin props}}
   \cup (IF DupArgs(mockargs)
           THEN {[clause |-> "C01.mock_client_syntax", locus |-> [args |-> Len(mockargs), clients |-> Cardinality(ToSet(mockargs))]]}
-          ELSE {[clause |-> "C13.mock_class_missing", locus |-> [tagpos |-> MinTagPos(Ops, k)]] :
+          ELSE {[clause |-> "C13.mock_class_missing", locus |-> [tagpos |-> MinTagPos(Ops, k), variants |-> Variants(Ops, k)]] :
                    k \in {k \in AllClasses(Ops) : ModOfKey(k) \notin DOMAIN mocks}}
-               \cup {[clause |-> "C13.apiclient_property_missing", locus |-> [side |-> "mock", tagpos |-> MinTagPos(Ops, k)]] :
+               \cup {[clause |-> "C13.apiclient_property_missing", locus |-> [side |-> "mock", tagpos |-> MinTagPos(Ops, k), variants |-> Variants(Ops, k)]] :
                    k \in {k \in AllClasses(Ops) : ModOfKey(k) \in props /\ ModOfKey(k) \notin mockprops}}
-               \cup UNION {{[clause |-> "C13.method_missing", locus |-> [side |-> "mock", tagpos |-> TagPos(Ops[i], k)]] :
+               \cup UNION {{[clause |-> "C13.method_missing", locus |-> [side |-> "mock", tagpos |-> TagPos(Ops[i], k), variants |-> Variants(Ops, k)]] :
                               i \in OpsOf(Ops, k) \ mocks[ModOfKey(k)]} :
                            k \in {k \in AllClasses(Ops) : ModOfKey(k) \in DOMAIN mocks}})
 
